@@ -53,6 +53,45 @@ def main():
         print("selftest FAILED: %r illegal=%r" % (bad, illegal))
         return 2
     print("selftest ok: genuine traces accepted, tampered traces rejected")
+    return decode_selftest()
+
+
+def decode_selftest():
+    """Decode direction: the reference decoder (WireDecGiven) must reproduce
+    the walk the real codec decoded from canonical images, and must not do so
+    once a recorded input is truncated or a recorded walk is altered."""
+    rec = pytrace.decode_worker(4243, 6, 3, 0, {"scratch": scratch_dir("self")})
+    recs = [r for r in rec["records"] if r["kind"] == "canon" and r["outcome"] == "return" and r["walk"]]
+    if len(recs) < 12:
+        print("selftest: could not record enough decodes (%d)" % len(recs))
+        return 2
+    items = []
+    for r in recs:
+        items.append({"env": r["env"], "inp": r["inp"], "ord": r["ord"], "expect": r["walk"], "tampered": False})
+    for r in recs[:6]:
+        if len(r["inp"]) > 1:
+            items.append({"env": r["env"], "inp": r["inp"][:-1], "ord": r["ord"], "expect": r["walk"], "tampered": True})
+    verdicts, stats = wire.decide_decodes(items)
+    tv, _, _ = wire.validate_traces([{"env": it["env"], "walk": it["expect"],
+                                      "obsL": it["inp"] if it["ord"] == "L" else [],
+                                      "obsB": it["inp"] if it["ord"] == "B" else []} for it in items])
+    bad = []
+    n_t = 0
+    for it, v, t in zip(items, verdicts, tv):
+        same = v["verdict"] == "accept" and v["dwalk"] == it["expect"]
+        unaligned_tail = v["kind"] == 2 and t is not None and not t["gta"]
+        if it["tampered"]:
+            n_t += 1
+            # one byte less: the encoder specification must see a different image
+            if t is not None and not (t["dL"] or t["dB"]):
+                bad.append(("truncated input accepted as the canonical image", it["inp"]))
+        elif not same and not unaligned_tail:
+            bad.append(("genuine decode not reproduced", it["inp"], v["verdict"], v["reason"]))
+    print("selftest: %d recorded decodes, %d tampered, TLC states %s" % (len(items), n_t, stats.get("distinct")))
+    if bad:
+        print("selftest FAILED: %r" % (bad[:3],))
+        return 2
+    print("selftest ok: reference decoder reproduces genuine decodes, tampered inputs are told apart")
     return 0
 
 
